@@ -175,6 +175,10 @@ func sraRound(pkgs []*packages.Package, overlay map[string][]byte) (map[string][
 							}
 						}
 					case *ast.ValueSpec:
+						if isDef && len(p.Names) > 1 && len(p.Values) == 0 {
+							uses = append(uses, use{"var-multi", p, sv, nil})
+							return true
+						}
 						if isDef && len(p.Names) == 1 {
 							if len(p.Values) == 0 {
 								uses = append(uses, use{"var", p, sv, nil})
@@ -262,6 +266,29 @@ func sraRound(pkgs []*packages.Package, overlay map[string][]byte) (map[string][
 						}
 					}
 				}
+				// `var a, b T`: all of them or none
+				for pass := 0; pass < 3; pass++ {
+					for _, u := range uses {
+						if u.kind != "var-multi" {
+							continue
+						}
+						anyBad := false
+						for _, nm := range u.node.(*ast.ValueSpec).Names {
+							o, _ := pkg.TypesInfo.Defs[nm].(*types.Var)
+							if o == nil || cands[o] == nil || bad[o] != "" {
+								anyBad = true
+							}
+						}
+						if anyBad {
+							for _, nm := range u.node.(*ast.ValueSpec).Names {
+								if o, _ := pkg.TypesInfo.Defs[nm].(*types.Var); o != nil && cands[o] != nil && bad[o] == "" {
+									bad[o] = "declared together with a variable that is not replaced"
+								}
+							}
+						}
+					}
+				}
+				multiDone := map[ast.Node]bool{}
 				// nested literal uses: a field selection inside the literal assigned to the same variable is fine
 				done := map[*types.Var]bool{}
 				for _, u := range uses {
@@ -287,6 +314,21 @@ func sraRound(pkgs []*packages.Package, overlay map[string][]byte) (map[string][
 						edits = append(edits, edit{off(se.Pos()), off(se.End()), sraName(v, se.Sel.Name)})
 					case "blank":
 						edits = append(edits, edit{off(u.node.Pos()), off(u.node.End()), ""})
+					case "var-multi":
+						if multiDone[u.node] {
+							break
+						}
+						multiDone[u.node] = true
+						var b bytes.Buffer
+						for _, nm := range u.node.(*ast.ValueSpec).Names {
+							o, _ := pkg.TypesInfo.Defs[nm].(*types.Var)
+							sib := cands[o]
+							for i, fn := range sib.fields {
+								n := sraName(o.Name(), fn)
+								fmt.Fprintf(&b, "var %s %s\n_ = %s\n", n, sib.ftext[i], n)
+							}
+						}
+						edits = append(edits, edit{off(u.node.Pos()) - len("var "), off(u.node.End()), strings.TrimSuffix(b.String(), "\n")})
 					case "var":
 						// the ValueSpec sits in a GenDecl `var x T`: replace the whole declaration statement
 						edits = append(edits, edit{off(u.node.Pos()) - len("var "), off(u.node.End()), strings.TrimSuffix(declare(), "\n")})
